@@ -5,18 +5,19 @@
 set -u
 wt="$1"; demo="$2"; shift 2
 cd "$wt" || exit 2
+T="${T}_$(basename "$wt")"   # per-worktree scratch names: several verifications may run at once
 export CARGO_NET_OFFLINE=true RUST_BACKTRACE=0
-git diff > /tmp/verify_cur.diff
-if diff -q /tmp/verify_cur.diff MUTANT/patch.diff >/dev/null; then echo "patch_matches_worktree=yes"; else echo "patch_matches_worktree=NO"; fi
-timeout 900 cargo test --offline "$@" >/tmp/verify_demo_with.log 2>&1; rc=$?
-echo "demo_with_change_exit=$rc ($(grep -E '^test result' /tmp/verify_demo_with.log | tail -1))"
-mv "$demo" /tmp/verify_demo_file.rs
-timeout 1800 cargo test --workspace --no-fail-fast --offline >/tmp/verify_base.log 2>&1
-passed=$(grep -E '^test result' /tmp/verify_base.log | sed -E 's/.* ([0-9]+) passed.*/\1/' | paste -sd+ | bc)
-failed=$(grep -E '^test result' /tmp/verify_base.log | sed -E 's/.* ([0-9]+) failed.*/\1/' | paste -sd+ | bc)
+git diff > ${T}_cur.diff
+if diff -q ${T}_cur.diff MUTANT/patch.diff >/dev/null; then echo "patch_matches_worktree=yes"; else echo "patch_matches_worktree=NO"; fi
+timeout 900 cargo test --offline "$@" >${T}_demo_with.log 2>&1; rc=$?
+echo "demo_with_change_exit=$rc ($(grep -E '^test result' ${T}_demo_with.log | tail -1))"
+mv "$demo" ${T}_demo_file.rs
+timeout 1800 cargo test --workspace --no-fail-fast --offline >${T}_base.log 2>&1
+passed=$(grep -E '^test result' ${T}_base.log | sed -E 's/.* ([0-9]+) passed.*/\1/' | paste -sd+ | bc)
+failed=$(grep -E '^test result' ${T}_base.log | sed -E 's/.* ([0-9]+) failed.*/\1/' | paste -sd+ | bc)
 echo "baseline_with_change passed=$passed failed=$failed"
-mv /tmp/verify_demo_file.rs "$demo"
+mv ${T}_demo_file.rs "$demo"
 git apply -R MUTANT/patch.diff || { echo "cannot revert"; exit 2; }
-timeout 900 cargo test --offline "$@" >/tmp/verify_demo_without.log 2>&1; rc=$?
-echo "demo_without_change_exit=$rc ($(grep -E '^test result' /tmp/verify_demo_without.log | tail -1))"
+timeout 900 cargo test --offline "$@" >${T}_demo_without.log 2>&1; rc=$?
+echo "demo_without_change_exit=$rc ($(grep -E '^test result' ${T}_demo_without.log | tail -1))"
 git apply MUTANT/patch.diff
